@@ -305,6 +305,21 @@ static std::string handle_obs(const std::vector<std::string> &t)
       std::unique_ptr<std::string> name(new std::string("o" + std::to_string(w.kinds.size())));
       nostd::string_view nm(name->data(), name->size());
       nostd::shared_ptr<apim::ObservableInstrument> o;
+      if (w.kinds.size() % 2 == 1)
+      {
+        // every other instrument gets a view that names, explicitly, the aggregation the instrument has by default (sum
+        // for counters and up-down counters, last value for gauges): the streams must be the same as without the view
+        const sdkm::InstrumentType ty = op[1] == "oc"   ? sdkm::InstrumentType::kObservableCounter
+                                        : op[1] == "ou" ? sdkm::InstrumentType::kObservableUpDownCounter
+                                        : op[1] == "og" ? sdkm::InstrumentType::kObservableGauge
+                                                        : sdkm::InstrumentType::kGauge;
+        const sdkm::AggregationType ag =
+            (op[1] == "oc" || op[1] == "ou") ? sdkm::AggregationType::kSum : sdkm::AggregationType::kLastValue;
+        std::unique_ptr<sdkm::InstrumentSelector> is(new sdkm::InstrumentSelector(ty, *name, ""));
+        std::unique_ptr<sdkm::MeterSelector> ms(new sdkm::MeterSelector("m", "", ""));
+        std::unique_ptr<sdkm::View> view(new sdkm::View("", "", "", ag));
+        w.provider->AddView(std::move(is), std::move(ms), std::move(view));
+      }
       if (op[1] == "oc") o = w.meter->CreateInt64ObservableCounter(nm);
       else if (op[1] == "ou") o = w.meter->CreateInt64ObservableUpDownCounter(nm);
       else if (op[1] == "og") o = w.meter->CreateInt64ObservableGauge(nm);
